@@ -20,7 +20,7 @@ EXPECTED = ['USER', 'PASS', 'SIZE', 'TYPE', 'PASV', 'RETR']
 EXPECTED_LIST = ['USER', 'PASS', 'TYPE', 'PASV', 'MLSD', 'LIST']
 
 
-def run_session(url, script, listing=False, login=None):
+def run_session(url, script, listing=False, login=None, client_setup=None):
     '''Returns dict(outcome, control peer, events).'''
     from wpull.network.pool import ConnectionPool
     from wpull.protocol.ftp.client import Client
@@ -33,6 +33,7 @@ def run_session(url, script, listing=False, login=None):
             control, data = ftpsim.install(net, script)
             pool = ConnectionPool(resolver=netsim.StaticResolver({'f.test': '127.0.3.1'}))
             client = Client(connection_pool=pool)
+            teardown = client_setup(client) if client_setup else None
             result['control'] = control
             try:
                 request = Request(url)
@@ -76,6 +77,11 @@ def run_session(url, script, listing=False, login=None):
                     result['error'] = type(e).__name__
                     result['error_obj'] = e
             result['body'] = buf.getvalue()
+            if teardown:
+                try:
+                    teardown()
+                except Exception as e:
+                    result['teardown_error'] = e
             try:
                 client.close()
             except Exception:
